@@ -30,13 +30,22 @@ class Pub:
         pass
 
 
+class Decoded:
+    """what the application's payload deserializer makes of a request payload"""
+
+    def __init__(self, payload):
+        self.of = payload
+
+
 def make_router(case_table, log, sigvariant):
     """real RequestRouter with recording handlers for the table; returns router"""
     from rsocket.routing.request_router import RequestRouter
     from rsocket.payload import Payload
     from rsocket.extensions.composite_metadata import CompositeMetadata
     from rsocket.helpers import create_future
-    router = RequestRouter()
+    # (variants 5-7: the router has a payload deserializer; a parameter annotated with a type gets the deserialised value, a parameter
+    # annotated Payload - or not annotated - gets the request payload itself, whatever the order of the parameters)
+    router = RequestRouter(payload_deserializer=lambda cls, p: Decoded(p)) if sigvariant >= 5 else RequestRouter()
 
     def result_for(t, tag):
         if t == 'response':
@@ -64,6 +73,18 @@ def make_router(case_table, log, sigvariant):
         elif variant == 3:
             async def h(request: Payload, meta: CompositeMetadata):
                 log.append((t, tag, {'payload': request, 'cm': meta}))
+                return result_for(t, tag)
+        elif variant == 5:
+            async def h(body: Decoded, raw: Payload):
+                log.append((t, tag, {'payload': raw, 'body': body}))
+                return result_for(t, tag)
+        elif variant == 6:
+            async def h(raw: Payload, body: Decoded):
+                log.append((t, tag, {'payload': raw, 'body': body}))
+                return result_for(t, tag)
+        elif variant == 7:
+            async def h(body: Decoded, meta: CompositeMetadata, payload):
+                log.append((t, tag, {'payload': payload, 'body': body, 'cm': meta}))
                 return result_for(t, tag)
         else:
             async def h():
@@ -219,9 +240,11 @@ def judge(v, c, d, log_slice, outcome, payload, sigvariant, ctx):
     if d != 'error' and log_slice:
         args = log_slice[0][2]
         ok = True
-        if sigvariant in (0, 2, 3) and args.get('payload') is not payload:
+        if sigvariant in (0, 2, 3, 5, 6, 7) and args.get('payload') is not payload:
             ok = False
-        if sigvariant in (1, 2, 3):
+        if sigvariant in (5, 6, 7) and not (isinstance(args.get('body'), Decoded) and args['body'].of is payload):
+            ok = False
+        if sigvariant in (1, 2, 3, 7):
             cm = args.get('cm')
             if not isinstance(cm, CompositeMetadata) or len(cm.items) < 1:
                 ok = False
@@ -336,7 +359,7 @@ def run(v):
     keys = sorted(groups)
     for gi, key in enumerate(keys):
         cases = groups[key]
-        variants = [gi % 5] if not thorough else [0, 1, 2, 3, 4]
+        variants = [gi % 8] if not thorough else [0, 1, 2, 3, 4, 5, 6, 7]
         for sv in variants:
             # every group is also driven with two of the four verifier shapes (all four in the thorough tier)
             for shape in (SHAPES if thorough else [SHAPES[gi % 4], SHAPES[(gi + 1 + sv) % 4]]):
